@@ -129,17 +129,14 @@ Section C09.
     mem name (index s) = false -> setitem pycast arrcast infer itemseq_exn (KName name) value s = (s, Raise KeyError).
   Proof. exact (unknown_name_item_rejected pycast arrcast infer itemseq_exn name value s). Qed.
 
+  (* obj[name, label] = v / obj[name, a:b:s] = v with `name` no variable: KeyError and nothing changes - for EVERY name (also
+     'attributes', 'strict': fix 216fc36), every label or slice, every value *)
   Theorem C09_unknown_name_label_rejected name l value s :
-    assoc name (vars s) = None -> name <> "attributes" ->
-    (forall x, assoc (String "_"%char name) (adict s) <> Some x) ->
-    exists e, setitem pycast arrcast infer itemseq_exn (KLabel name l) value s = (s, Raise e) /\ (e = KeyError \/ e = TypeError).
+    mem name (index s) = false -> setitem pycast arrcast infer itemseq_exn (KLabel name l) value s = (s, Raise KeyError).
   Proof. exact (unknown_name_label_rejected pycast arrcast infer itemseq_exn name l value s). Qed.
 
   Theorem C09_unknown_name_slice_rejected name a b st value s :
-    assoc name (vars s) = None -> name <> "attributes" ->
-    (forall x, assoc (String "_"%char name) (adict s) <> Some x) ->
-    exists e, setitem pycast arrcast infer itemseq_exn (KSlice name a b st) value s = (s, Raise e) /\
-              (e = KeyError \/ e = TypeError \/ e = IndexError).
+    mem name (index s) = false -> setitem pycast arrcast infer itemseq_exn (KSlice name a b st) value s = (s, Raise KeyError).
   Proof. exact (unknown_name_slice_rejected pycast arrcast infer itemseq_exn name a b st value s). Qed.
 
   (* bulk assignment: exactly the keywords before the failing one are applied *)
@@ -199,12 +196,30 @@ Theorem C09_failed_single_assignment_np o s s' e :
 Proof. exact (failed_single_assignment_np o s s' e). Qed.
 
 (* the model's totalisation default (OtherError = "outside the model") is reached by NO operation from a state satisfying the
-   invariant, except item assignments addressed at a name that is not a variable: no statement above holds by virtue of a default *)
-Theorem C09_other_error_only_for_hidden_names o s :
-  Inv s -> snd (np_step o s) = Raise OtherError ->
-  exists name v, assoc name (vars s) = None /\
-    ((exists l, o = SetItem (KLabel name l) v) \/ (exists a b st, o = SetItem (KSlice name a b st) v)).
-Proof. exact (np_other_error_only_for_hidden_names o s). Qed.
+   invariant: no statement above holds by virtue of a default branch *)
+Theorem C09_no_other_error o s : Inv s -> snd (np_step o s) <> Raise OtherError.
+Proof. exact (np_no_other_error o s). Qed.
+
+(* read-only hooks (_ipython_key_completions_, dir(), `in`, nbytes): they change nothing, and what they return *)
+Theorem C09_hooks_change_nothing q s : fst (read q s) = s.
+Proof. exact (read_frame q s). Qed.
+
+Theorem C09_completions_are_the_variables s : snd (read QCompletions s) = Ret (VNames (index s)).
+Proof. exact (completions_are_the_variables s). Qed.
+
+Theorem C09_contains_spec n s : snd (read (QContains n) s) = Ret (VBool true) <-> In n (row_names s).
+Proof. exact (contains_spec n s). Qed.
+
+Theorem C09_dir_lists_variables_and_attributes s x :
+  exists l, snd (read QDir s) = Ret (VNames l) /\ (In x l <-> In x (index s) \/ reg_mem x (registry s) = true).
+Proof. exact (dir_lists_variables_and_attributes s x). Qed.
+
+Theorem C09_nbytes_spec s :
+  (NoDup (index s) /\ (forall x, In x (index s) -> assoc x (vars s) <> None) /\
+   (forall x v, assoc x (vars s) = Some v -> vshape v = [length (span s)])) ->
+  snd (read QNbytes s) =
+  Ret (VNat (fold_right (fun x acc => match dtype_of s x with Some d => length (span s) * itemsize d + acc | None => acc end) 0 (index s))).
+Proof. exact (nbytes_spec s). Qed.
 
 (* kept findings (known_findings.d/C09.json), mirrored by the model *)
 Theorem C09_partial_write_refuted :
@@ -213,12 +228,6 @@ Theorem C09_partial_write_refuted :
     assoc "X" (vars s) = Some (mkVar DInt [3] [PInt 1; PInt 2; PInt 3]%Z) /\
     assoc "X" (vars (fst (np_step o s))) = Some (mkVar DInt [3] [PInt 7; PInt 8; PInt 3]%Z).
 Proof. exact partial_write_refuted. Qed.
-
-Theorem C09_unknown_name_accepted_refuted :
-  exists s l v, Inv s /\ assoc "attributes" (vars s) = None /\ mem "attributes" (index s) = false /\
-    snd (np_step (SetItem (KLabel "attributes" l) v) s) = Ret tt /\
-    registry (fst (np_step (SetItem (KLabel "attributes" l) v) s)) <> registry s.
-Proof. exact unknown_name_accepted_refuted. Qed.
 
 Theorem C09_strict_values_setter_blocked_refuted :
   exists s v, Inv s /\ strict s = true /\ mem "values" (index s) = false /\
@@ -256,9 +265,13 @@ Print Assumptions C09_strict_updates_keep_working.
 Print Assumptions C09_whole_series_ignores_strict.
 Print Assumptions C09_add_variable_ignores_strict.
 Print Assumptions C09_failed_single_assignment_np.
-Print Assumptions C09_other_error_only_for_hidden_names.
+Print Assumptions C09_no_other_error.
+Print Assumptions C09_hooks_change_nothing.
+Print Assumptions C09_completions_are_the_variables.
+Print Assumptions C09_contains_spec.
+Print Assumptions C09_dir_lists_variables_and_attributes.
+Print Assumptions C09_nbytes_spec.
 Print Assumptions C09_partial_write_refuted.
-Print Assumptions C09_unknown_name_accepted_refuted.
 Print Assumptions C09_strict_values_setter_blocked_refuted.
 Print Assumptions C09_values_setter_reached.
 Print Assumptions w0_inv.
